@@ -262,7 +262,29 @@ impl EncodingVersion for EncodingVersion1 {
         member: &DynamicTypeMember,
         dynamic_data: &mut DynamicData,
     ) -> XTypesResult<()> {
-        Self::deserialize_mmember(deserializer, member, dynamic_data)
+        // The optional member of a final structure is read in place and consumed
+        Self::align(deserializer, 4)?;
+        let _pid: u16 = deserializer.deserialize_primitive_type()?;
+        let length = deserializer.deserialize_primitive_type::<u16>()? as usize;
+        let buffer = deserializer.reader.buffer;
+        let start = deserializer.reader.pos;
+        let member_buffer = buffer
+            .get(start..start + length)
+            .ok_or(XTypesError::NotEnoughData)?;
+        let result = if length > 0 {
+            deserializer.reader = Reader {
+                buffer: member_buffer,
+                pos: 0,
+            };
+            deserializer.deserialize_value(member, dynamic_data)
+        } else {
+            Ok(())
+        };
+        deserializer.reader = Reader {
+            buffer,
+            pos: start + length,
+        };
+        result
     }
 
     /// Structures with extensibility MUTABLE, version 1 encoding
